@@ -17,7 +17,7 @@ import (
 // up as "context X collected a response to another survey".
 
 func c07E2E(w *W) {
-	tran := []string{"inproc", "sim", "simipc", "tcp", "ipc", "tls+tcp"}[w.Choose(simrt.SShape, 6)]
+	tran := w.simFallback([]string{"inproc", "sim", "simipc", "tcp", "ipc", "tls+tcp"}[w.Choose(simrt.SShape, 6)])
 	nq := 1 + w.Choose(simrt.SShape, 3)
 	nresp := 1 + w.Choose(simrt.SShape, 3)
 	nrc := 1 + w.Choose(simrt.SShape, 2)
